@@ -386,4 +386,30 @@ def caseHyps (op : Op) (k : Kind) (n : Nat) (a b : Int) (af bf : Form) : List St
     (if seenBV n l == BitVec.ofInt n a && (op == .neg || op.isShift || seenBV n r == BitVec.ofInt n b)
      then [] else ["operand-value"]) ++ hyps op (k == .int) n l r
 
+/-! ## Constants shared by name, used at a second width (`Program.Circuit`, repo 3c18dfa) -/
+
+/-- `ssa.isSet` for an integer constant: bits at or above `BitLen` read as 0. -/
+def isSetBit (v : MInt) (i : Nat) : Bool := decide (i < v.bitLen) && v.bit i
+
+/-- The `n` wires of a constant operand whose name was first registered with another width: the bits come
+from the constant's own value; above its own size (`mpa` size, capped at `n`) a `TInt` constant repeats
+bit `own-1`, a `TUint` constant is zero. -/
+def rewiden (signed : Bool) (n : Nat) (v : MInt) : Nat :=
+  let own := min v.bits n
+  (List.range n).foldl (fun acc i =>
+    let src := if i ≥ own ∧ signed then own - 1 else i
+    if decide (src < own) && isSetBit v src then acc + 2 ^ i else acc) 0
+
+/-- Driver entry for the alias oracle: `T1(v) + y, T2(v2) + x` at `y = x = 0`; the first constant fixes the
+wires of the shared name, the second is re-widened when the widths differ. -/
+def aliasOutputs (k1 : Kind) (n1 : Nat) (k2 : Kind) (n2 : Nat) (v v2 : Int) : Res (Nat × Nat) := do
+  let c1 ← typedConst k1 n1 v (if v < 0 then .cast else .pos)
+  let c2 ← typedConst k2 n2 v2 (if v2 < 0 then .cast else .pos)
+  match c1, c2 with
+  | .int t1 m1, .int _ m2 =>
+    let first := constWires t1 m1 % 2 ^ n1
+    let second := if n1 = n2 then first else rewiden (k2 == .int) n2 m2
+    pure (first, second)
+  | _, _ => .error .compileError
+
 end Mpc.Fold
